@@ -1,13 +1,54 @@
 SPEC = dict(
     id="C32",
-    level_text="(under construction)",
-    technique="Lean 4 proof over an executable model of the write/import/replication routing; differential correspondence through the real fiber handlers",
-    factgen=False,
+    level_text=(
+        "Lean 4 theorems over an executable model of every write surface: msgpack (decode incl. batch flattening, "
+        "failing elements, nested batches; extractMeasurements; name validation; CheckWritePermissions; "
+        "ArrowBuffer.Write dispatch), line protocol (/write, /api/v2/write, /api/v1/write/line-protocol, LP import: "
+        "database from header/query per endpoint, RBAC before name validation), CSV/Parquet import (importPreamble), "
+        "TLE write/import, buffer key -> splitBufferKey -> generateStoragePath, WAL emission (envelope vs plain rows), "
+        "ParseEnvelope and the replication apply path. Proved for ALL requests, payloads and RBAC policies: "
+        "C32_full_lineprotocol(+_paths), C32_full_tle (full strength: every key/path is <request db>/<m>/... with m "
+        "permission-checked and allowed, db and m slash-free); C32_full_msgpack_partial(+_paths) under the carve-out "
+        "`measurement != \"\"` with C32_full_msgpack_witness (a record with measurement \"\" is buffered under `db/` "
+        "unvalidated and unchecked); C32_msgpack_database (no carve-out: a msgpack write never leaves the request's "
+        "database); C32_full_import_partial under the carve-out `importPreamble succeeded` with "
+        "C32_full_import_witness (a rejected/denied CSV or Parquet import still stores its rows, under \"\"/\"\"); "
+        "C32_payload_inert(_msgpack/_lineprotocol/_single): status, database, checked set and keys are a function of "
+        "the payload skeleton only (all cell names/values erased); C32_denied_stores_nothing_{msgpack,lineprotocol,tle} "
+        "(+ import witness/partial); C32_envelope_roundtrip, C32_replicated (every replicated key carries the database "
+        "ParseEnvelope extracted), C32_replicated_enveloped, C32_replicated_full_partial (enveloped raw columnar "
+        "entries land where the writer stored them) with witnesses C32_replicated_full_witness_database / _measurement "
+        "(un-enveloped row entries land under `default` and under a measurement read from a payload cell); "
+        "C32_facts_tied consumes the regenerated facts by `decide`. The model is diffed against the REAL fiber handlers "
+        "(app.Test), a recording RBAC checker, a real ArrowBuffer over a recording backend, a real wal.Writer whose "
+        "replication hook feeds the REAL Receiver.applyEntry -> buildReplicationIngestHandler on a second ArrowBuffer."
+    ),
+    level_note=(
+        "Three clauses of the property are violated by the current code and are claimed only under explicit carve-outs "
+        "(see known findings / witnesses): msgpack records with an empty measurement; CSV/Parquet imports whose "
+        "preamble rejected the request; replicated copies of writes that reach the WAL without an envelope (line "
+        "protocol, row-format/batch/array msgpack, TLE, CSV/Parquet). The msgpack/LP decoders, CSV/Parquet/TLE "
+        "parsers and Arrow/Parquet encoding are outside the model: the harness classifies each generated element "
+        "(decodes / errors / junk) and the correspondence checks that classification."
+    ),
+    technique="Lean 4 proof over an executable routing model with regenerated source facts; differential correspondence through the real fiber handlers, ArrowBuffer, WAL hook and replication apply path",
+    factgen=True,
     hooks={"internal/ingest": "go/hooks/c32_ingest",
            "internal/cluster/replication": "go/hooks/c32_replication",
            "internal/cluster": "go/hooks/c32_cluster",
            "internal/api": "go/hooks/c32_api"},
     harnesses=[dict(name="c32", tags="verif duckdb_arrow", timeout=dict(quick=900, thorough=3000))],
-    trusted_base=[],
-    assumptions=[],
+    trusted_base=[
+        "fiber/fasthttp request parsing: c.Get / c.Query return \"\" for an absent and for an empty header/parameter (the op line carries what was sent; both map to the empty name in the model)",
+        "the msgpack library, the line-protocol text parser, encoding/csv, arrow-go Parquet reader and the TLE parser: the harness labels each generated element as decoding / failing and the diff validates the label, the model starts from the decoded records",
+        "Go map iteration order: measurements are validated / checked / written in an unspecified order; the model's outcome is order-independent (all-quantified checks), CheckPermission calls after the first denial are not compared",
+        "the recording RBACChecker stands in for auth.RBACManager (allow-list: database allowed_db, measurements cpu, mem); token info is injected through c.Locals as the auth middleware does",
+        "the in-process hand-over wal.Writer replication hook -> Receiver.applyEntry stands in for the authenticated TCP stream (sender/receiver framing and MACs are C24's subject)",
+        "factgen's syntactic shape checks (extractMeasurements type switch, call order, key expressions, rowsToColumns list, importPreamble returns)",
+    ],
+    assumptions=[
+        "rows of one measurement inside one request share their tag/field layout with disjoint tag and field names (the `_value` renaming of colliding names is not modelled); values are well typed so that convertColumnsToTyped succeeds",
+        "the caller's identity is present (token info set) and RBAC enabled for the `checked` clauses; with RBAC off or without token info CheckWritePermissions consults nothing (modelled and diffed, no permission claim)",
+        "database names reach AppendRawWithMeta validated (<= 64 bytes), so the envelope length field is exact",
+    ],
 )
